@@ -133,6 +133,20 @@ def acceptedClass (v : Viol) : String :=
 
 def showJson (j : Json) : String := hexEncode (JsonText.render j)
 
+def policyNames : List Bytes := [kVersion, kId, kStatement]
+def stmtNames : List Bytes :=
+  [kSid, kPrincipal, kNotPrincipal, kEffect, kAction, kNotAction, kResource, kNotResource, kCondition]
+
+/-- some member of the document or of one of its statements is not named by the grammar (R2) -/
+def hasForeignMember (j : Json) : Bool :=
+  match j with
+  | .obj ms =>
+    ms.any (fun kv => !policyNames.contains kv.1) ||
+    (statementNodes j).any fun
+      | .obj sms => sms.any fun kv => !stmtNames.contains kv.1
+      | _ => false
+  | _ => false
+
 def stmtCount (p : Policy) : String :=
   match p.statement with
   | .one _ => "one"
@@ -200,7 +214,10 @@ def judgeDoc (id textHex acc reserHex vdHex : String) : String :=
               | none, none => agree id (if inStringGrammar j then "rej-in-grammar" else "rej-condition-nonstring")
               | none, some (ji, _) =>
                 agree id (if !mapNamesUnique j then "ok-repeated-map-names"
-                  else if JsonText.render ji == JsonText.render j then "ok-verbatim" else "ok-canon")
+                  else if JsonText.render ji == JsonText.render j then "ok-verbatim"
+                  else if hasForeignMember j then "ok-foreign-members-dropped"
+                  else if (statementNodes j).isEmpty then "ok-empty-statement-list"
+                  else "ok-canon")
 
 def judge (fs : List String) : String :=
   match fs with
